@@ -67,6 +67,10 @@ chk("C20", "E6", "complete synchronous product walk of two finite rule graphs (g
     "Complete, unbounded: all 37 rules, every expression node pair, every literal/flag/label/reference, all 1,114,112 runes for each of the character classes, every action and predicate body after go/printer normalisation, parameter lists and wrapper argument order; nothing left unmatched.",
     "Structural equality of the shipped pair; positions/display strings reported not judged; the generic PEG engine is covered behaviourally by C15/C10/C11.", "DESIGN.md 5 C20")
 
+chk("C14", "E5", "exhaustive exploration of every answer the environment may give at each map-iteration point (all n! key orders per call, depth-first over the sequence of calls) on the real Evaluate/Execute through the generated map-order seam",
+    "For every (expression, datum) of the bounded space (maps of 2..4 [thorough 5] entries with every {T,F,E} assignment x any/all x binding modes, nested map-in-map / list-of-maps, filters over maps) ALL iteration-order answer sequences are executed on the real code: one outcome class per case (filters: same kept keys or same error-ness). A free-repetition pass is run as a labelled sampling complement.",
+    "Seam generated from /repo's working tree for reflect MapKeys/MapRange and range-over-map; constructs it cannot seam are listed and only covered by the complement; bounded map sizes.", "DESIGN.md 5 C14")
+
 REASON_NOT_BUILT = "check not built yet (in progress) - will be decided by bounded exhaustive exploration, see DESIGN.md"
 
 def main():
@@ -101,6 +105,7 @@ def main():
         },
         "engines": [
             {"name": "E6", "path": "/verif/mc/pegcmp/compare.go", "serves_properties": ["C20"], "kind_free_text": "E6 rule-graph product walker (grammar.peg vs grammar.go)"},
+            {"name": "E5", "path": "/verif/mc/vrt/choose.go", "serves_properties": ["C14"], "kind_free_text": "E5 environment-choice explorer (map iteration order) over the overlay seam"},
             {"name": "E2", "path": "/verif/mc/checks/c15.go", "serves_properties": ["C10","C11","C15","C16","C19"], "kind_free_text": E2},
             {"name": "E1", "path": "/verif/mc/checks/e1.go", "serves_properties": ["C01","C02","C03","C04","C05","C06","C07","C08","C09","C17","C18"], "kind_free_text": E1},
         ],
